@@ -36,6 +36,13 @@ BLANK_LINES = ["", " ", "\t", "  \t "]
 SRCS = ["text", "bytes", "path"]
 COLS = ["id", "type", "x", "y", "z", "r", "pid"]
 BAD_TEMPLATE = ["9", "3", "1.5", "2", "0", "1", "1"]
+# what is left of the column-header line the WRITER emits (`# id type x y z r pid [extra columns]`) behind the '#': the reader takes the LAST
+# comment line in front of the first row for that header if it starts like this, and returns every other comment line
+HEADER_TEXT = " " + " ".join(COLS)
+# comment lines for the slots around the rows (group 1d): plain ones and ones that start like the column header
+SLOT_PLAIN = ["# a", "#b"]
+SLOT_HEADER_LIKE = ["#" + HEADER_TEXT, "#" + HEADER_TEXT + " e", "  #" + HEADER_TEXT + "x and more", "#" + HEADER_TEXT + "  "]
+SLOT_NEARLY = ["#" + HEADER_TEXT[1:], "#  " + HEADER_TEXT[1:], "# " + HEADER_TEXT[1:].upper(), "#" + HEADER_TEXT[:-4]]  # no blank / two blanks / upper case / cut short
 
 
 # ---------------------------------------------------------------- reporting
@@ -81,18 +88,25 @@ def ref_read(text, nextra=0):
     """Independent reader: returns (rows, comments, field_counts).  A row is
     [id, type, x, y, z, r, pid, extra...]; only str.split / int / float are used."""
     rows, comments, nfields = [], [], []
+    behind_hash, lead = [], None  # text behind the '#' of every comment line; number of comment lines in front of the first row
     for line in text.replace("\r\n", "\n").split("\n"):
         s = line.strip()
         if s == "":
             continue
         if s[0] == "#":
             comments.append(s[1:].strip())
+            behind_hash.append(s[1:])
             continue
         tok = s.split()
         if len(tok) < 7 + nextra:
             raise ValueError(f"reference reader: short row {line!r}")
+        if lead is None:
+            lead = len(comments)
         rows.append([int(tok[0]), int(tok[1])] + [float(t) for t in tok[2:6]] + [int(tok[6])] + [float(t) for t in tok[7:7 + nextra]])
         nfields.append(len(tok))
+    lead = len(comments) if lead is None else lead
+    if lead and behind_hash[lead - 1].startswith(HEADER_TEXT):
+        del comments[lead - 1]  # the writer's column header: the last comment line in front of the rows, and only that one
     return rows, comments, nfields
 
 
@@ -468,6 +482,32 @@ def run(ctx):
                     if mode != "requested":
                         spec["exp_extra"] = True
                     go("good-exp-extra", spec)
+
+        # (1d) comment lines in every slot around two rows (in front of the first row, between the rows, behind the last one): none, one or two
+        # lines per slot, plain ones and ones that start like the writer's column header (with extra columns, indented, with a suffix) or nearly
+        # do; blank lines mixed in.  Only the LAST comment line in front of the first row is the column header, and only if it starts like it.
+        pool = [SLOT_PLAIN[0], SLOT_HEADER_LIKE[0], SLOT_HEADER_LIKE[1]]
+        fills = [()] + [(a,) for a in pool] + [(a, b) for a in pool for b in pool if SLOT_HEADER_LIKE[0] in (a, b) or SLOT_HEADER_LIKE[1] in (a, b)]
+        if not thorough:
+            fills = [f for f in fills if len(f) < 2 or f in ((pool[0], pool[1]), (pool[1], pool[0]), (pool[1], pool[1]), (pool[1], pool[2]))]
+        kc = 0
+        two = ["1 1 0 0 0 1 -1", "2 1 1 0 0 1 1"]
+        for front, mid, back in itertools.product(fills, repeat=3):
+            kc += 1
+            if not thorough and (len(front) + len(mid) + len(back) > 3 or (mid and back and kc % 2)):
+                continue
+            blank = [BLANK_LINES[kc % 4]] if kc % 3 == 0 else []
+            lines = list(front) + blank + two[:1] + list(mid) + two[1:] + (blank if kc % 2 else []) + list(back)
+            eol = EOLS[kc % 5 == 0]
+            go("good-comment-slots", dict(kind="good", text=eol.join(lines) + (eol if kc % 7 else ""), src=SRCS[kc % 3], opts=dict(reset_index=(kc % 4 != 0))))
+        for h in SLOT_HEADER_LIKE + SLOT_NEARLY + SLOT_PLAIN:  # every spelling alone in every slot, and in front of the rows behind nothing / a plain line / itself
+            for slot in range(3):
+                kc += 1
+                lines = ([h] if slot == 0 else []) + two[:1] + ([h] if slot == 1 else []) + two[1:] + ([h] if slot == 2 else [])
+                go("good-comment-slots", dict(kind="good", text="\n".join(lines) + "\n", src=SRCS[kc % 3], opts=dict(reset_index=True)))
+            for extra in ((), ("# a",), (h,)):
+                kc += 1
+                go("good-comment-slots", dict(kind="good", text="\n".join(extra + (h,) + tuple(two)) + "\n", src=SRCS[kc % 3], opts=dict(reset_index=False)))
 
         # (1c) encodings
         for enc in ("utf-8", "utf-16", "latin-1", "detect"):
